@@ -73,6 +73,10 @@ impl<'a> ParseState<'a, &'a str> {
         self.head + kw.len() <= self.env@.len()
             && self.env@.subrange(self.head as int, self.head + kw.len()) == kw
     }
+    /// C09 mechanism: the cursor does not stand on the format's space keyword
+    pub open spec fn no_space_here(&self) -> bool {
+        !self.at_head(self.format.space.parse@)
+    }
 }
 
 /// A2 (dependency): nar_dev_utils `ZeroOneFloat::is_in_01` for f64 is `(0.0..=1.0).contains(x)`;
@@ -103,20 +107,7 @@ pub open spec fn mid_eq_except_term(a: MidParseResult, b: MidParseResult) -> boo
     a.budget == b.budget && a.punctuation == b.punctuation && a.stamp == b.stamp && a.truth == b.truth
 }
 
-/// C12 (one level): what a term returned by the enum parser looks like at its root
-pub open spec fn parsed_wf(t: Term) -> bool {
-    match t {
-        Term::Word(n) | Term::VariableIndependent(n) | Term::VariableDependent(n)
-        | Term::VariableQuery(n) | Term::Operator(n) => n@.len() > 0,
-        Term::SetExtension(s) | Term::SetIntension(s) | Term::IntersectionExtension(s)
-        | Term::IntersectionIntension(s) | Term::Conjunction(s) | Term::Disjunction(s)
-        | Term::ConjunctionParallel(s) => s@.len() > 0,
-        Term::Product(v) | Term::ConjunctionSequential(v) => v@.len() > 0,
-        Term::ImageExtension(i, v) | Term::ImageIntension(i, v) => i <= v.len(),
-        _ => true,
-    }
-}
-
+// (C12 well-formedness predicates and their induction lemmas: common/wf_specs.rs, raw-included before this file)
 /// assumed in this unit, proved in unit `term_eq` (C06): comparing with the placeholder
 pub assume_specification[ <Term as PartialEq>::eq ](a: &Term, b: &Term) -> (r: bool)
     ensures *b == Term::Placeholder ==> r == (*a == Term::Placeholder);
